@@ -41,7 +41,8 @@ def reader_self(nbits=None):
 
 def register(reg):
     MODS = ["self.ifile_cur", "self.file_obj"]
-    CH = ["C02", "C01"]
+    # the positioned-read chain under the generator: also run by the streaming reductions and transforms that consume it
+    CH = ["C02", "C01", "C06", "C07"]
 
     # ---- assumed contracts (np.cumsum / sum of the per-file datalen list: A-NP)
     c = Contract(S + "StreamInfo.cumsum_datalens", props=CH, trusted=True,
